@@ -47,7 +47,13 @@ pub enum GOp {
     FrConst { dst: usize, k: String },
     FrRandom { dst: usize, mode: RngMode, sub: u64 },
     Prep { slot: usize, g2: usize },
-    PrepClone { slot: usize, from: usize },
+    PrepClone {
+        slot: usize,
+        from: usize,
+        /// use Clone::clone_from into the existing slot instead of clone() + assignment
+        #[serde(default)]
+        via_from: bool,
+    },
     PrepPair { slot: usize, g1: usize },
     Pair { g1: usize, g2: usize },
 }
@@ -774,9 +780,14 @@ pub fn exec(spec: &GrpSpec, prop: &str) -> RunResult {
                     st.reuse[*slot % m] = 0;
                     ok(Wrote::Nothing("prepared"))
                 }
-                GOp::PrepClone { slot, from } => {
-                    let x = st.prep[*from % m].clone();
-                    st.prep[*slot % m] = x;
+                GOp::PrepClone { slot, from, via_from } => {
+                    let (src, k) = st.prep[*from % m].clone();
+                    if *via_from {
+                        st.prep[*slot % m].0.clone_from(&src);
+                        st.prep[*slot % m].1 = k;
+                    } else {
+                        st.prep[*slot % m] = (src, k);
+                    }
                     ok(Wrote::Nothing("cloned"))
                 }
                 GOp::PrepPair { slot, g1 } => {
@@ -922,6 +933,40 @@ pub fn exec(spec: &GrpSpec, prop: &str) -> RunResult {
 // ---------------------------------------------------------------------------------------
 // generator
 
+/// eigenvalue of the endomorphism (x, y) -> (beta x, y) of the j = 0 curve on the order-r
+/// subgroups: l = 36 t^4 - 1 mod r, a primitive cube root of unity mod r. [l]P has the same y
+/// as P and another x, so k and -l*k (or l*k) are the scalars that meet the adder's
+/// "same y / opposite y but different x" situations.
+pub fn endo_lambda() -> BigUint {
+    let r = model::r();
+    let t = BigUint::from(0x600000000058F98Au64);
+    let t2 = &t * &t;
+    let l = ((&t2 * &t2 * 36u32) - 1u32) % r;
+    debug_assert!(((&l * &l + &l + 1u32) % r).is_zero());
+    l
+}
+
+/// Fq constants whose *stored* (Montgomery) form is special: R^-1 (limbs 1,0,0,0), R, R^2,
+/// 2^-64, -1, 2, (q-1)/2, or any limb pattern from the boundary alphabet
+pub fn special_fq(pr: &mut Prng) -> BigUint {
+    let q = model::q();
+    let rr = BigUint::one() << 256;
+    let rinv = model::minv(&(&rr % q), q).unwrap();
+    match pr.below(9) {
+        0 | 1 => rinv,
+        2 => &rr % q,
+        3 => (&rr * &rr) % q,
+        4 => model::minv(&((BigUint::one() << 64) % q), q).unwrap(),
+        5 => q - 1u32,
+        6 => (q - 1u32) >> 1,
+        _ => {
+            let l = crate::world_fld::limb_patterns(pr, q) % q;
+            let v = (l * &rinv) % q;
+            if v.is_zero() { BigUint::one() } else { v }
+        }
+    }
+}
+
 pub fn alphabet_scalar(pr: &mut Prng) -> BigUint {
     let r = model::r();
     match pr.below(16) {
@@ -972,9 +1017,18 @@ pub fn alphabet_scalar(pr: &mut Prng) -> BigUint {
                 BigUint::from(3u32),
                 BigUint::from(13u32),
                 BigUint::from(1621u32),
+                endo_lambda(),
+                (endo_lambda() * endo_lambda()) % r,
             ];
             let v = pr.pick(&pool).clone();
-            if pr.chance(1, 4) { (r - v) % r } else { v }
+            let v = if pr.chance(1, 4) { (r - v) % r } else { v };
+            // the constant itself or a near neighbour (k = l^2 + 2 style scalars)
+            match pr.below(6) {
+                0 => (v + 1u32) % r,
+                1 => (v + 2u32) % r,
+                2 => (v + r - 1u32) % r,
+                _ => v,
+            }
         }
         _ => from_be(&pr.bytes(32)) % r,
     }
@@ -983,7 +1037,8 @@ pub fn alphabet_scalar(pr: &mut Prng) -> BigUint {
 fn gen_lambda(pr: &mut Prng, g: Grp) -> String {
     let q = model::q();
     let pick = |pr: &mut Prng| -> BigUint {
-        match pr.below(6) {
+        match pr.below(8) {
+            6 | 7 => special_fq(pr),
             0 => q - 1u32,
             1 => BigUint::from(2u32),
             2 => BigUint::one(),
@@ -1204,7 +1259,7 @@ pub fn generate(seed: u64, pairing_heavy: bool) -> GrpSpec {
             7 => ops.push(GOp::Pair { g1: a, g2: b }),
             8 => match pr.below(6) {
                 0 => ops.push(GOp::Prep { slot: pr.usize_below(m), g2: a }),
-                1 => ops.push(GOp::PrepClone { slot: pr.usize_below(m), from: pr.usize_below(m) }),
+                1 => ops.push(GOp::PrepClone { slot: pr.usize_below(m), from: pr.usize_below(m), via_from: pr.chance(1, 2) }),
                 _ => ops.push(GOp::PrepPair { slot: pr.usize_below(m), g1: a }),
             },
             9 => ops.push(GOp::Rescale { g, dst, lam: gen_lambda(&mut pr, g) }),
@@ -1215,7 +1270,7 @@ pub fn generate(seed: u64, pairing_heavy: bool) -> GrpSpec {
                 let slot = pr.usize_below(m);
                 let slot2 = pr.usize_below(m);
                 let c = pr.usize_below(n);
-                match pr.below(6) {
+                match pr.below(7) {
                     0 => {
                         ops.push(GOp::PrepPair { slot, g1: a });
                         ops.push(GOp::Neg { g: Grp::G1, dst: c, a });
@@ -1229,7 +1284,7 @@ pub fn generate(seed: u64, pairing_heavy: bool) -> GrpSpec {
                     }
                     2 => {
                         ops.push(GOp::Prep { slot, g2: b });
-                        ops.push(GOp::PrepClone { slot: slot2, from: slot });
+                        ops.push(GOp::PrepClone { slot: slot2, from: slot, via_from: pr.chance(1, 2) });
                         ops.push(GOp::Prep { slot, g2: c });
                         ops.push(GOp::PrepPair { slot: slot2, g1: a });
                         ops.push(GOp::PrepPair { slot, g1: a });
@@ -1248,6 +1303,21 @@ pub fn generate(seed: u64, pairing_heavy: bool) -> GrpSpec {
                         ops.push(GOp::PrepPair { slot, g1: a });
                         ops.push(GOp::PrepPair { slot, g1: c });
                     }
+                    5 => {
+                        // both arguments rescaled by the same special constant (stored form 1,
+                        // R, R^2, limb patterns): z values with special stored limbs on both sides
+                        let lv = special_fq(&mut pr);
+                        let l1 = hex(&be32(&lv));
+                        let mut l2 = be32(&BigUint::zero()).to_vec();
+                        l2.extend_from_slice(&be32(&lv));
+                        ops.push(GOp::Normalize { g: Grp::G1, dst: a });
+                        ops.push(GOp::Normalize { g: Grp::G2, dst: b });
+                        ops.push(GOp::Rescale { g: Grp::G1, dst: a, lam: l1 });
+                        ops.push(GOp::Rescale { g: Grp::G2, dst: b, lam: hex(&l2) });
+                        ops.push(GOp::Pair { g1: a, g2: b });
+                        ops.push(GOp::Prep { slot, g2: b });
+                        ops.push(GOp::PrepPair { slot, g1: a });
+                    }
                     _ => {
                         // prepare from a rescaled / non-normalised source, then compare with the
                         // one-shot entry points on the same registers
@@ -1264,7 +1334,7 @@ pub fn generate(seed: u64, pairing_heavy: bool) -> GrpSpec {
                 // that the special-case branches of the adder and of == are met on purpose
                 let c = pr.usize_below(n);
                 let kk = hex(&be32(&scalar(&mut pr)));
-                match pr.below(7) {
+                match pr.below(9) {
                     0 => {
                         // commuted pair: A+B and B+A
                         ops.push(GOp::Add { g, dst, a, b });
@@ -1311,10 +1381,31 @@ pub fn generate(seed: u64, pairing_heavy: bool) -> GrpSpec {
                         ops.push(GOp::Add { g, dst, a, b });
                         ops.push(GOp::Add { g, dst: c, a: b, b: a });
                     }
-                    _ => {
+                    6 => {
                         // decode round trip of one operand, then add to the Jacobian original
                         ops.push(GOp::Codec { g, dst: c, a, fmt: *pr.pick(&FMTS) });
                         ops.push(GOp::Add { g, dst, a, b: c });
+                    }
+                    _ => {
+                        // k*A and (s*k)*A for s in {l, l^2, -l, -l^2} (endomorphism eigenvalue):
+                        // same or opposite y with a different x; both Jacobian or both normalised
+                        let kv = (from_be(&unhex(&kk)) % r).max(BigUint::one());
+                        let l = endo_lambda();
+                        let sv = match pr.below(4) {
+                            0 => l.clone(),
+                            1 => (&l * &l) % r,
+                            2 => r - &l,
+                            _ => r - ((&l * &l) % r),
+                        };
+                        ops.push(GOp::MulK { g, dst, a, k: hex(&be32(&kv)), left: false });
+                        ops.push(GOp::MulK { g, dst: c, a, k: hex(&be32(&((&kv * &sv) % r))), left: pr.chance(1, 2) });
+                        if pr.chance(1, 2) {
+                            ops.push(GOp::Normalize { g, dst });
+                            ops.push(GOp::Normalize { g, dst: c });
+                        }
+                        ops.push(GOp::Add { g, dst: b, a: dst, b: c });
+                        ops.push(GOp::Sub { g, dst: b, a: dst, b: c });
+                        ops.push(GOp::Sub { g, dst: b, a: c, b: dst });
                     }
                 }
             }
